@@ -190,7 +190,7 @@ def check(casefile, scratch, coqdir, limit=40):
             docs[evs] = "doc%d" % len(docs)
         c = sx_parse(cmd)
         assert c[0] == "q"
-        en = "(Env %s %s %s %s %s)" % (docs[evs], gpath(c[2]),
+        en = "(Env %s %s %s %s %s false)" % (docs[evs], gpath(c[2]),
                                         glist(["(%s, %s)" % (gstr(x[1]), gstr(x[2])) for x in c[3]]),
                                         glist(["(%s, %s)" % (gq(x[1], x[2]), gvalue(x[3])) for x in c[4]]),
                                         glist(["(%s, %s)" % (gq(x[1], x[2]), gufun(x[3])) for x in c[5]]))
